@@ -169,6 +169,10 @@ func genNyctMsg(t *rapid.T, zone string) (*rgen.Msg, int, int, bool) {
 		}
 		if assigned || rapid.Bool().Draw(t, "trainIDPresent") {
 			n.TrainID = rgen.P(fmt.Sprintf("0%s %04d+ TRAIN/%d", route, 1000+i, i))
+			if rapid.IntRange(0, 5).Draw(t, "trainIDPadded") == 0 {
+				// white space around the train id is part of it: the vehicle id is the train id, verbatim
+				n.TrainID = rgen.P(fmt.Sprintf(rapid.SampledFrom([]string{" %s", "%s ", "%s\t", "\u00a0%s", " %s  "}).Draw(t, "trainIDPad"), *n.TrainID))
+			}
 		}
 		d.Nyct = n
 		tu := &rgen.TripUpdate{Trip: d}
